@@ -411,14 +411,21 @@ BITS_ARG = OneOf(Bool(), Int(), *(_lists(Int(), 8) + _tuples(Int(), 2)))
 ADDR_ARG = OneOf(Bytes(0, 6), ByteArray(0, 6))
 
 
+USED_BY_NETWORK = ("open_rx_pipe", "open_tx_pipe", "auto_ack.set", "set_auto_retries")
+
+
 def C(name, target, args, ref, extra_policy=None, ensures=(), **kw):
     state = {"self": rf24_schema()}
     state.update(args)
     pol = dict(PRIMS)
     pol.update(extra_policy or {})
     ens = [("inv", "spec.rf24_state:post_inv")] + list(ensures)
+    props = ["C03", "C09"]
+    if name in USED_BY_NETWORK:
+        # callees that the network layer uses BY REFERENCE: their obligations belong to those properties' checks too
+        props = props + ["C04", "C07", "C05", "C14"]
     return Contract("C03." + name, target, state, requires=["spec.rf24_state:inv"], refines=ref,
-                    view="spec.rf24_state:view_cfg", ensures=ens, policy=pol, props=["C03"], **kw)
+                    view="spec.rf24_state:view_cfg", ensures=ens, policy=pol, props=props, **kw)
 
 
 R = "spec.c03:"
